@@ -5,6 +5,7 @@ import subprocess
 import common
 import progcheck
 import c19_parquet
+import c19_rowcount
 
 
 def hashseed_names(run, n):
@@ -211,7 +212,11 @@ def run(run):
     run.rule = ("generated programs (l1/l2 profiles): optimize twice -> same name; optimize(optimize(q)) -> same result; no non-convergence; simplify pass counts bounded; "
                 "names across 4 fresh interpreters with different PYTHONHASHSEED; non-trivial = program with >= 2 steps; "
                 "projected multi-file parquet reads (2 readers, files of unequal shape, 8 size layouts, calculate_divisions on/off): plan (name, partitions, divisions, graph keys, "
-                "partition lengths) first vs after every history action of the session (same collection and rebuilt query) vs a fresh interpreter; optimize twice; result vs pandas")
+                "partition lengths) first vs after every history action of the session (same collection and rebuilt query) vs a fresh interpreter; optimize twice; result vs pandas; "
+                "consumers of the rows (len/size/shape/index/count/sum/head ...) o wrappers o row-wise combination (binary ops, where/mask, assign, fillna ...) of two operands "
+                "of one source with different histories (same rows / filtered / sampled / cut / sorted / repartitioned / other collection) over pandas, unknown-division, "
+                "from_map and parquet sources: every stage terminates (no non-convergence, simplify rounds <= 40 + 6 n), same plan twice and for the rebuilt query, "
+                "optimize(optimize(q)) computes what optimize(q) computes")
     run.proofs("PropC19.v")
     quick = run.tier == "quick"
     progcheck.run_programs(run, {"C19"}, 150 if quick else 3000, profile="l1", own={"C19"}, with_steps=False)
@@ -220,4 +225,5 @@ def run(run):
     join_filter_convergence(run)
     determinism_over_time(run)
     c19_parquet.parquet_plan_histories(run)
+    c19_rowcount.rowcount_consumers(run)
     hashseed_names(run, 40 if quick else 300)
